@@ -283,6 +283,44 @@ def gc_layout_templates():
     return out
 
 
+def coll_templates():
+    """Small exhaustive grammar over a group of three keys forced onto one hash: two of them written (either order), the
+    collision detected by a read or not, one of them deleted or not, the third key joining the group or not, then a
+    clean restart (tree dump kept / removed / every index file removed) or a GC pass followed by a restart, and all keys
+    read.  Covers: a key joining a DETECTED group, a tombstone replayed after / before its siblings (hint files are
+    ordered by (hash, key)), detection by read vs by hint merge."""
+    import itertools
+    out = []
+    n = 0
+    for x, y in itertools.permutations('abc', 2):
+        z = [k for k in 'abc' if k not in (x, y)][0]
+        for detect in (None, x, y):
+            for dele in (None, x, y):
+                for third in (False, True):
+                    for rm in ([], ['*.idx.hash'], ['*.idx.*']):
+                        for gc in (False, True):
+                            ops = [{'op': 'set', 'k': x, 'v': 1, 'nblk': 1}, {'op': 'set', 'k': y, 'v': 2, 'nblk': 1}]
+                            if detect:
+                                ops.append({'op': 'get', 'k': detect})
+                            if dele:
+                                ops.append({'op': 'del', 'k': dele})
+                            if third:
+                                ops += [{'op': 'set', 'k': z, 'v': 3, 'nblk': 1}, {'op': 'get', 'k': z}]
+                            ops.append({'op': 'set', 'k': 'p', 'v': 4, 'nblk': 1})        # an ordinary key beside the group
+                            if gc:
+                                ops += [{'op': 'set', 'k': 'p', 'v': 5, 'nblk': 1}, {'op': 'set', 'k': 'p', 'v': 6, 'nblk': 1},
+                                        {'op': 'flush'}, {'op': 'gc', 'begin': 0, 'end': -1, 'merge': False}, {'op': 'readall'}]
+                            ops += [{'op': 'close'}, {'op': 'open', 'rm': rm}, {'op': 'readall'}]
+                            out.append({'id': 'colt-%04d' % n, 'family': 'seq',
+                                        # (without GC everything stays in ONE data / hint file: the replay order inside a hint file
+                                        #  is (hash, key), so a tombstone of a later-sorting key is replayed after its siblings)
+                                        'conf': {'filemax_blk': 3 if gc else 9, 'splitcap': 9, 'rotflush': 'auto', 'bodymax_blk': 1, 'check_vhash': False,
+                                                 'buckets': 16, 'bucket': 15, 'height': 3, 'micro': False, 'collide': [['a', 'b', 'c']]},
+                                        'ops': ops})
+                            n += 1
+    return out
+
+
 def gen_batch(seed, count, focus, prefix):
     rng = random.Random(seed)
     out = []
